@@ -1,5 +1,6 @@
 import StepModel.GenDeterm
 import StepModel.ExpressHashLemmas
+import StepModel.ExpressHashComplete
 /-!
 # C12 — generators and the pretty printer are deterministic functions of their input
 
@@ -89,6 +90,19 @@ theorem C12_hash_order_filtered {π ρ : Type} (f : π → ρ) (kvs : List (Stri
     (ExpressHash.dictOrder (kvs.map (ExpressHash.mapE f)) sel).map (·.1) = (ExpressHash.dictOrder kvs (sel ∘ f)).map (·.1) := by
   rw [ExpressHash.dictOrder_mapP, List.map_map]
   rfl
+
+/-- **Every dictionary iteration visits each entry exactly once** — for dictionaries below the load at which
+    `HASHexpand_table` is first called (fewer than `SEGMENT_SIZE * (MAX_LOAD_FACTOR + 1) - 1` = 1535 definitions; constants
+    regenerated): `DICTdo` yields a permutation of the entries `DICTdefine` kept (the first definition of each key), so no
+    entity / type / rule / function / interface item is skipped or emitted twice by any printer loop, and (with
+    `C12_hash_order_keys_only`) in an order that is a function of the key strings and their definition order only.
+    **Excluded**: dictionaries of 1535 and more entries (the symbol tables of the largest shipped APs), where the table is
+    expanded; for those completeness is tied only by the byte comparison of the scanner's output with the model (C17). -/
+theorem C12_iter_complete_partial {π : Type} (kvs : List (String × π))
+    (hsmall : kvs.length + 1 ≤ ExpressHash.segmentSize * (ExpressHash.maxLoadFactor + 1)) :
+    (ExpressHash.dictOrder kvs).Perm (ExpressHash.firsts kvs) ∧ ((ExpressHash.dictOrder kvs).map (·.1)).Nodup := by
+  have hp := ExpressHash.dictOrder_perm_firsts kvs hsmall
+  exact ⟨hp, (hp.map (·.1)).nodup_iff.mpr (ExpressHash.firsts_keys_nodup kvs)⟩
 
 /-! ## exppp: order of the item-wise USE / REFERENCE groups -/
 
